@@ -266,6 +266,7 @@ type LoadOut = Result<Result<Box<dyn CaseObj>, String>, String>;
 impl DocFn for LoadFn {
     type Out = LoadOut;
     fn call<D: Doc>(self) -> LoadOut {
+        crate::ctx::scrub_stack();
         tracker::set_op(self.op);
         let _l = sys::loader_enter(self.op);
         match self.fault {
